@@ -10,6 +10,7 @@ import (
 	"fmt"
 	"os"
 	"strconv"
+	"time"
 
 	"go.uber.org/zap/verif/internal/ev"
 )
@@ -43,6 +44,11 @@ func main() {
 			tier = os.Args[3]
 		}
 		r := ev.New(os.Args[2], tier, p.level)
+		idle := 3 * time.Minute
+		if d, err := time.ParseDuration(os.Getenv("VERIF_WATCHDOG_IDLE")); err == nil && d > 0 {
+			idle = d // for trying the watchdog out
+		}
+		r.StartWatchdog(idle)
 		p.run(r)
 		os.Exit(r.Finish())
 	case "replay":
